@@ -106,6 +106,8 @@ Proof.
   - intros s e s' R IH H t. destruct e; step_cases H; cbn; intros M; try congruence; auto.
     + (* Respond *) destruct (IH _ M) as [th [G P]]. exists th. gs; auto. congruence.
     + injection M as M; subst. gs. eexists; split; eauto. congruence.
+    + (* RespondBad *) destruct (IH _ M) as [th [G P]]. exists th. gs; auto. congruence.
+    + (* Drop *) destruct (IH _ M) as [th [G P]]. gs; [congruence | eauto].
 Qed.
 
 Definition registered_st (x : rst) : bool :=
@@ -508,9 +510,9 @@ Proof.
   { rewrite !get_set. destruct (id =? 1) eqn:E1; [apply N.eqb_eq in E1; subst; congruence|].
     destruct (old =? 1) eqn:E2; [apply N.eqb_eq in E2; subst|eauto].
     rewrite Gq in Heqo. injection Heqo as <-. rewrite S in Heqb. discriminate. }
-  split; auto. rewrite get_set. destruct (t =? 7) eqn:E; [apply N.eqb_eq in E; subst; congruence|].
-  split; [eauto|]. split; [|eauto].
-  intros t1 th1. rewrite get_set. destruct (t =? t1) eqn:E1; [intros X; injection X as <-; cbn; discriminate | apply U].
+  all: split; auto; rewrite get_set; (destruct (t =? 7) eqn:E; [apply N.eqb_eq in E; subst; congruence|]);
+       (split; [eauto|]); (split; [|eauto]);
+       intros t1 th1; rewrite get_set; (destruct (t =? t1) eqn:E1; [intros X; injection X as <-; cbn; discriminate | apply U]).
 Qed.
 
 Theorem deadlock_permanent : forall es s', run orig deadlock_state es = Some s' -> dead s'.
@@ -555,4 +557,26 @@ Proof.
   pose proof (dead_blocked _ dead_deadlock_state) as [B1 B2].
   split. reflexivity. split. exact B1. split. exact B2.
   intros es s' H. pose proof (deadlock_permanent es s' H) as [M [_ [_ [C Q]]]]. auto.
+Qed.
+
+(* ---- messages dropped before the lock *)
+Lemma drop_only_bad c s t s' : step c s (Drop t) = Some s' ->
+  (exists th, get (thrs s) t = Some th /\ tpc th = TBad) /\ reqs s' = reqs s /\ chans s' = chans s /\ mu s' = mu s.
+Proof.
+  intros H. cbn [step] in H. destruct (get (thrs s) t) as [th|] eqn:G; try discriminate.
+  destruct (tpc th) eqn:P; try discriminate. injection H as <-. cbn. repeat split; eauto.
+Qed.
+
+Lemma bad_thread_inert c s t th : get (thrs s) t = Some th -> tpc th = TBad ->
+  step c s (Lock t) = None /\ step c s (Deliver t) = None.
+Proof.
+  intros G P. cbn [step]. rewrite G, P. destruct (mu s); auto.
+Qed.
+
+(* a message that reaches the lookup (the only place where [arrived] is set) was not one of the dropped kind *)
+Lemma deliver_only_wellformed c s t s' : step c s (Deliver t) = Some s' ->
+  exists th, get (thrs s) t = Some th /\ tpc th = THold.
+Proof.
+  intros H. cbn [step] in H. destruct (get (thrs s) t) as [th|] eqn:G; try discriminate.
+  destruct (tpc th) eqn:P; try discriminate. eauto.
 Qed.
